@@ -92,6 +92,12 @@ def make_cases(rng, tier):
         q = rng.choice([1, 1, 2, 3, 7])
         if p != (0, 0, 0) and max(abs(x) for x in p) / q <= 1000:
             rods.add((p, q))
+    # rotation angles between 179.94 and 179.994 degrees (|r| = 2000 .. 19000): u_to_rod must still rebuild the matrix
+    while len(rods) < (430 if tier == "quick" else 8300):
+        big = rng.choice([2000, 6000, 19000])
+        p = tuple(rng.randint(-big, big) for _ in range(3))
+        if sum(x * x for x in p) >= 2000 ** 2 and sum(x * x for x in p) < 1000000000:
+            rods.add((p, 1))
     for (p, q) in sorted(rods):
         cases.append(case("rod", (), p, q))
     cases.append(case("rod", (), (0, 0, 0), 1))
@@ -154,7 +160,8 @@ def worker(x):
                 M = G(mod.detect_tilt, ang(cs["a"][0]) + s1, ang(cs["a"][1]) + s2, ang(cs["a"][2]) + s3)
             else:
                 r = [v / cs["q"] for v in cs["p"]]
-                M = G(mod.rod_to_u, r)
+                bigrod = max(abs(t) for t in r) > 1000.0          # beyond the constructor's quantifier (|r| <= 1e3): only the inverse is claimed
+                M = G(mod.rod_to_u, r) if not bigrod else ex
             M = np.asarray(M, dtype=float)
             n += 1
             if M.shape != (3, 3) or not np.all(np.isfinite(M)) or np.abs(M - ex).max() > 1e-12 * (1 if k != "rod" else 10) * (20 if k in ("omega", "general", "quart", "tilt") else 1):
@@ -180,7 +187,8 @@ def worker(x):
                 n += 1
                 r = np.asarray(G(mod.u_to_rod, ex), dtype=float)
                 want = np.array(cs["p"], dtype=float) / cs["q"]
-                if not np.all(np.isfinite(r)) or np.abs(r - want).max() > 1e-9 * max(1.0, np.abs(want).max() ** 3):
+                if not np.all(np.isfinite(r)) or (np.abs(want).max() <= 1000 and np.abs(r - want).max() > 1e-9 * max(1.0, np.abs(want).max() ** 3)) \
+                        or (np.abs(want).max() > 1000 and (np.sign(r) != np.sign(want)).any() and np.abs(r - want).max() > 1e-3 * np.abs(want).max()):
                     out.append("u_to_rod gives %s, the Rodrigues vector is %s (%s)" % (r.tolist(), want.tolist(), tag))
                 else:
                     Rb = np.asarray(G(mod.rod_to_u, r), dtype=float)
